@@ -25,7 +25,7 @@ OUTSIDE = ["urlencoded keys/values longer than 2 (3) code points or above U+07FF
 SHAPES = {"field": ["field"], "file": ["file"], "field+file": ["field", "file"], "file+field-same-name": ["file", "field"], "two-fields": ["field", "field"]}
 
 
-def body_roundtrip(I, X, shape="field", n=2, nn=1, boundary="b", chunk=0):
+def body_roundtrip(I, X, shape="field", n=2, nn=1, boundary="b", chunk=0, name_skel="{}"):
     from werkzeug.datastructures import Headers
     from werkzeug.sansio.multipart import Data, Epilogue, Field, File, MultipartEncoder, Preamble
 
@@ -42,6 +42,10 @@ def body_roundtrip(I, X, shape="field", n=2, nn=1, boundary="b", chunk=0):
             name = X.str(f"name{i}", nn, minlen=nn, maxcp=0x7FF)
             X.assume(pall_in(name, [(0x20, 0x7FF)]))
             X.assume(pnone_in(name, [0x22, 0x5C, 0x7F]))
+            if name_skel != "{}":
+                # solver characters inside a fixed text (reaches '%XX'-looking names)
+                pre, _, post = name_skel.partition("{}")
+                name = pconcat(pre, name, post)
             X.assume(pnot(pcontains(name, "%22")))
             shared_name = name
         payload = X.bytes(f"payload{i}", n, minlen=n)
@@ -51,6 +55,9 @@ def body_roundtrip(I, X, shape="field", n=2, nn=1, boundary="b", chunk=0):
             filename = X.str(f"fn{i}", nn, minlen=nn, maxcp=0x7FF)
             X.assume(pall_in(filename, [(0x20, 0x7FF)]))
             X.assume(pnone_in(filename, [0x22, 0x5C, 0x7F]))
+            if name_skel != "{}":
+                pre, _, post = name_skel.partition("{}")
+                filename = pconcat(pre, filename, post)
             X.assume(pnot(pcontains(filename, "%22")))
             ev = File(name=name, filename=filename, headers=Headers([("Content-Type", "text/plain")]))
         else:
@@ -176,6 +183,11 @@ def obligations(tier, seed):
         for chunk in ([9, 16, 30] if quick else [5, 9, 12, 16, 23, 30, 41]):
             out.append({"name": f"roundtrip-chunked[{shape},chunk={chunk}]", "body": "body_roundtrip",
                         "params": {"shape": shape, "n": 2, "nn": 1, "boundary": "----long-boundary-0123456789", "chunk": chunk},
+                        "opts": {"budget_s": 900, "ctx": {"max_cp": 0x7FF}}})
+    for shape in ("field", "file"):
+        for skel in ("%{}", "a%{}b", "{}%41"):
+            out.append({"name": f"roundtrip[{shape},names={skel!r}]", "body": "body_roundtrip",
+                        "params": {"shape": shape, "n": 1, "nn": 2, "boundary": "b", "name_skel": skel},
                         "opts": {"budget_s": 900, "ctx": {"max_cp": 0x7FF}}})
     for shape in SHAPES:
         for boundary in ("b", "xyz"):
